@@ -220,16 +220,26 @@ SubKinds(cls) ==
     [] cls = "specialization" -> {"specialization", "mention"}
     [] OTHER -> {cls}
 
+(* "the URI x denotes": decided from the logged public tables when the container's OWN tables    *)
+(* decide it (full URI, QualifiedName, own registered or pre-loaded prefix, own default);        *)
+(* a spelling that falls through to private state (the renamed-prefix map) or to the parent is    *)
+(* judged against what the container itself resolves it to (den, logged) - that resolution is     *)
+(* C03's subject, the index is C18's                                                              *)
+Certain(obs, h, n) ==
+  \/ n.rep \in {"qn", "uri", "rec"}
+  \/ n.rep = "pl" /\ LookupPrefix(obs.ns[h], n.p) # NONE
+  \/ n.rep = "bare" /\ obs.ns[h].dflt # NONE
+DenotedU(obs, parents, h, n, den) == IF Certain(obs, h, n) THEN DenoteIn(obs, parents, h, n) ELSE den
 C18_lookup(step) ==
-  LET known == {i \in 1..Len(step.look) :
-                  DenoteIn(step.post, step.parents, step.look[i].h, step.look[i].n) # NONE}
+  LET U(e) == DenotedU(step.post, step.parents, e.h, e.n, e.den)
+      known == {i \in 1..Len(step.look) : U(step.look[i]) # NONE}
   IN Cl("C18_lookup", known # {},
         \A i \in known : LET e == step.look[i] IN
-           e.idx = ScanIdx(step.post.con[e.h].recs, DenoteIn(step.post, step.parents, e.h, e.n)))
+           e.idx = ScanIdx(step.post.con[e.h].recs, U(e)))
 
 (* get_record(x) called as an operation (x may be a QualifiedName under any prefix) *)
 C18_get(step) ==
-  LET u == DenoteIn(step.pre, step.parents, step.op.h, step.op.id) IN
+  LET u == DenotedU(step.pre, step.parents, step.op.h, step.op.id, IF "den" \in DOMAIN step THEN step.den ELSE NONE) IN
   Cl("C18_get", step.op.op = "GetRecord" /\ u # NONE,
      step.exc = "none" /\ step.res = ScanIdx(step.post.con[step.op.h].recs, u)
      /\ step.post.con[step.op.h].recs = step.pre.con[step.op.h].recs)
@@ -242,10 +252,19 @@ C18_typed(step) ==
 
 C18_copy(step) == Cl("C18_copy", TRUE, \A h \in DOMAIN step.copy : step.copy[h])
 
+(* get_records(cls) lists the records present when it was asked: step.held are listings obtained *)
+(* BEFORE the call of this step and read AFTER it (0 stands for a record that was not there)     *)
+C18_held(step) ==
+  Cl("C18_held", "held" \in DOMAIN step /\ \E h \in DOMAIN step.held : step.pre.con[h].recs # <<>>,
+     \A h \in DOMAIN step.held : \A cls \in DOMAIN step.held[h] :
+        step.held[h][cls] = SelectSeq([i \in 1..Len(step.pre.con[h].recs) |-> i],
+                                      LAMBDA i : step.pre.con[h].recs[i].k \in SubKinds(cls)))
+
 C18Clauses(step) ==
   IF "look" \in DOMAIN step
   THEN {C18_lookup(step), C18_typed(step), C18_copy(step)}
        \cup (IF step.op.op = "GetRecord" THEN {C18_get(step)} ELSE {})
+       \cup (IF "held" \in DOMAIN step THEN {C18_held(step)} ELSE {})
   ELSE {}
 
 -----------------------------------------------------------------------------
